@@ -69,7 +69,7 @@ func execute(c Case, tag string) vt.Verdict {
 		}
 	}
 	f := obs.Read(file, obs.Options{SelSeeds: []uint64{11, 22, 33, 44}})
-	ps := hist.Compare(ex.M, f, hist.Opts{RefCount: true})
+	ps := hist.Compare(ex.M, f, hist.Opts{RefCount: true, SkipLinks: true}) // how soft and external links read back is C03's business (KF-C03-01)
 	for _, p := range ps {
 		if p.Kind == "attr-value-unsigned" {
 			continue // KF-C02-02 (C02's finding; attribute bytes and type are still compared)
@@ -96,10 +96,23 @@ func execute(c Case, tag string) vt.Verdict {
 			if p.Kind == "indep-refcount" {
 				continue
 			}
+			if (p.Kind == "indep-link-value" || p.Kind == "indep-link-missing") && aliasOfSymlink(c, p.Path) {
+				continue // a hard link made to the path of a soft/external link is stored as a hard link to the pseudo object (KF-C03-01)
+			}
 			return vt.Bad("independent decoder disagrees with the model: %s (%d/%d ops succeeded)", p, ok, len(c.Ops))
 		}
 	}
 	return vt.Pass()
+}
+
+// aliasOfSymlink: path was created by a hard-link operation whose target is the path of a soft / external link.
+func aliasOfSymlink(c Case, path string) bool {
+	for _, op := range c.Ops {
+		if op.K == "hard" && op.Path == path && strings.HasPrefix(op.Target, "/sym") {
+			return true
+		}
+	}
+	return false
 }
 
 // linkedFromDense: the object at path is the target of a link held by a group created with CreateDenseGroup.
@@ -353,11 +366,12 @@ func gen(t *rapid.T) Case {
 	}
 	n := rapid.IntRange(3, vt.N(40, 120)).Draw(t, "nops")
 	links := 0
+	var symlinks []string
 	withReopen := rapid.IntRange(0, 4).Draw(t, "withReopen") == 0
 	reopenAt := rapid.IntRange(1, n).Draw(t, "reopenAt")
 	for i := 0; i < n; i++ {
 		o := objs[rapid.IntRange(0, len(objs)-1).Draw(t, "obj")]
-		k := rapid.SampledFrom([]string{"write", "write", "attr", "attr", "attr", "delattr", "resize", "hard", "new"}).Draw(t, "k")
+		k := rapid.SampledFrom([]string{"write", "write", "attr", "attr", "attr", "delattr", "resize", "hard", "new", "symlink"}).Draw(t, "k")
 		if withReopen && i == reopenAt {
 			c.Ops = append(c.Ops, hist.Op{K: "reopen"}) // a session boundary: close, OpenForWrite, handles via OpenDataset
 		}
@@ -366,11 +380,24 @@ func gen(t *rapid.T) Case {
 			if len(objs) < nobj {
 				c.Ops = append(c.Ops, newObj(len(objs)))
 			}
+		case k == "symlink":
+			// a soft or external link (the library stores either as a small object of its own, between the others)
+			symlinks = append(symlinks, fmt.Sprintf("/sym%d", len(symlinks)))
+			sp := symlinks[len(symlinks)-1]
+			if rapid.Bool().Draw(t, "external") {
+				c.Ops = append(c.Ops, hist.Op{K: "ext", Path: sp, Target: o.path, File: "other.h5"})
+			} else {
+				c.Ops = append(c.Ops, hist.Op{K: "soft", Path: sp, Target: o.path})
+			}
 		case k == "hard":
 			links++
 			tgt := o.path
 			if rapid.IntRange(0, 11).Draw(t, "toRoot") == 0 {
 				tgt = "/" // the root group itself: refused, and nothing else may change
+			} else if len(symlinks) > 0 && rapid.IntRange(0, 3).Draw(t, "toSymlink") == 0 {
+				// the path of a soft / external link as the target: whatever the library makes of it (open finding
+				// KF-C03-01), the objects stored around the link stay as they are
+				tgt = symlinks[rapid.IntRange(0, len(symlinks)-1).Draw(t, "symlink")]
 			}
 			c.Ops = append(c.Ops, hist.Op{K: "hard", Path: fmt.Sprintf("/link%d", links), Target: tgt})
 		case k == "attr":
@@ -432,6 +459,12 @@ func classify(c Case) (bool, []string) {
 	}
 	if links > 0 {
 		labels = append(labels, "has_hardlink")
+	}
+	for _, op := range c.Ops {
+		if op.K == "hard" && strings.HasPrefix(op.Target, "/sym") {
+			labels = append(labels, "hardlink_to_symlink_path")
+			break
+		}
 	}
 	keys := make([]string, 0)
 	for k := range withData {
